@@ -384,11 +384,26 @@ def run(repo: Repo, rep: Report) -> None:  # noqa: F811
              "inherited language off, so the empty string must not be treated like an absent attribute", floor=1)
     rx = repo.mod("rdflib.plugins.parsers.rdfxml")
     for q, f in rx.functions():
+        # the expressions that hold the in-scope language: the `.language` attribute of the element handlers and every local that is
+        # assigned from it, from the xml:lang attribute lookup (`<attrs>.get(LANG, ...)`), or from another such local
+        lang_names: set[str] = set()
+        for _ in range(3):
+            for a in own_nodes(f):
+                if isinstance(a, ast.Assign) and len(a.targets) == 1 and isinstance(a.targets[0], ast.Name):
+                    v = a.value
+                    src = (isinstance(v, ast.Attribute) and v.attr == "language") or (isinstance(v, ast.Name) and v.id in lang_names) or (
+                        isinstance(v, ast.Call) and isinstance(v.func, ast.Attribute) and v.func.attr == "get" and v.args and norm(v.args[0]) == "LANG")
+                    if src:
+                        lang_names.add(a.targets[0].id)
+
+        def is_lang(e: ast.AST) -> bool:
+            return (isinstance(e, ast.Attribute) and e.attr == "language") or (isinstance(e, ast.Name) and e.id in lang_names)
+
         for n in own_nodes(f):
             if isinstance(n, ast.Compare) and isinstance(n.ops[0], (ast.Is, ast.IsNot)) and isinstance(n.comparators[0], ast.Constant) and n.comparators[0].value is None \
-                    and norm(n.left).split(".")[-1] in ("language", "literalLang"):
+                    and is_lang(n.left):
                 rep.ob("C05.f-empty-xml-lang-is-a-value", rx, q, n, True, "by identity", node=n)
         for e, owner, kind in _tr.bool_contexts(f):
-            if norm(e).split(".")[-1] in ("language", "literalLang") and isinstance(e, (ast.Name, ast.Attribute)):
+            if is_lang(e):
                 rep.ob("C05.f-empty-xml-lang-is-a-value", rx, q, "%s [in %s: %s]" % (norm(e), kind, norm(getattr(owner, "test", owner))[:60]), False,
                        "%s is None or a string; xml:lang=\"\" (empty string, falsy) is an explicit `no language` and must not take the `attribute absent` path: literals below would inherit the ancestor's language tag" % norm(e), node=e)
